@@ -835,6 +835,15 @@ let handle_accept fields =
     else if is_prefix "SKIP" orc then incr skipped
   | _ -> raise (Parse "bad accept line")
 
+
+(* ---------- family: nopanic (C03; implementation oracle only) ---------- *)
+let handle_nopanic fields =
+  match fields with
+  | [cls; res; orc] ->
+    count_case (cls ^ orc) (res <> "SYNTAX");
+    relay_oracle "nopanic" (cls ^ " " ^ res) orc
+  | _ -> raise (Parse "bad nopanic line")
+
 (* ---------- main loop ---------- *)
 let () =
   Array.iter (fun a -> if a = "--nodedupe" then dedupe := false) Sys.argv;
@@ -861,6 +870,7 @@ let () =
              | "graph" -> handle_graph fields
              | "graphop" -> handle_graphop fields
              | "accept" -> handle_accept fields
+             | "nopanic" -> handle_nopanic fields
              | _ -> raise (Parse ("unknown family " ^ fam)))
           with Parse m -> report "DRIVER-ERROR" [m; line]; incr mismatches)
        | [] -> ()
